@@ -39,6 +39,44 @@ def run(chk):
     r5(chk)
 
 
+def roles_raire(fn):
+    """Role names of compute_raire_assertions discovered from structure (independent of the spelling of locals)."""
+    r = {}
+    for st in fn.body:
+        if isinstance(st, ast.Assign) and isinstance(st.targets[0], ast.Name):
+            v = norm(st.value)
+            if v == "RaireFrontier()":
+                r["frontier"] = st.targets[0].id
+    # the flag: the name tested by the `if` that returns []
+    for st in walk_local(fn):
+        if isinstance(st, ast.If) and isinstance(st.test, ast.Name):
+            if any(isinstance(x, ast.Return) and isinstance(x.value, ast.List) and not x.value.elts for x in ast.walk(st)):
+                r["flag"] = st.test.id
+    # the contest's ballots: the list comprehension selecting blt[contest.name]
+    for st in fn.body:
+        if isinstance(st, ast.Assign) and isinstance(st.targets[0], ast.Name) and isinstance(st.value, ast.ListComp) \
+                and "[contest.name]" in norm(st.value.elt):
+            r["ballots"] = st.targets[0].id
+    # the running lower bound: the name on the right of `<node>.estimate <= NAME` in the search loop
+    for st in walk_local(fn):
+        if isinstance(st, ast.If) and isinstance(st.test, ast.Compare) and len(st.test.ops) == 1 and isinstance(st.test.ops[0], ast.LtE) \
+                and norm(st.test.left).endswith(".estimate") and isinstance(st.test.comparators[0], ast.Name):
+            r.setdefault("lowerbound", st.test.comparators[0].id)
+    return r
+
+
+def roles_fba(fb):
+    r = {}
+    for t, v, s in stores(fb):
+        if isinstance(t, ast.Attribute) and t.attr == "best_assertion" and isinstance(v, ast.Name):
+            r["best"] = v.id
+    # the ballots parameter: second positional parameter
+    ps = [a.arg for a in fb.args.args]
+    r["ballots"] = ps[1] if len(ps) > 1 else "ballots"
+    r["node"] = ps[3] if len(ps) > 3 else "node"
+    return r
+
+
 def _guard_of(node, fn):
     """innermost enclosing If whose body contains node -> (if_node) list outward"""
     out = []
@@ -86,7 +124,8 @@ def r1(chk):
     chk.ob("C04.R1", where, "neb-tallies-are-full-sums", ok_t,
            "the NEB tallies are sums, from 0, over all CVRs of the assertion's own is_vote_for_winner / is_vote_for_loser", node=tloop or st, **detail)
     # guard + report + publication
-    pubs = [(t, v, s) for t, v, s in stores(fn) if isinstance(t, ast.Subscript) and norm(t.value).startswith("nebs[") and norm(v) == av]
+    pubs = [(t, v, s) for t, v, s in stores(fn) if isinstance(t, ast.Subscript) and isinstance(t.value, ast.Subscript) and norm(v) == av]
+    matrix = norm(pubs[0][0].value.value) if pubs else "nebs"
     ok_g = False
     detail = {}
     if len(pubs) == 1 and tw and tl:
@@ -95,12 +134,13 @@ def r1(chk):
         rep = {t.attr: norm(v) for t, v, s in stores(strict[0]) if isinstance(t, ast.Attribute) and norm(t.value) == av} if strict else {}
         ok_g = bool(strict) and rep.get("votes_for_winner") == tw and rep.get("votes_for_loser") == tl and strict[0].lineno > tloop.lineno
         detail = dict(guard=norm(strict[0].test) if strict else None, reported=rep)
-    other_pubs = [norm(s)[:60] for t, v, s in stores(fn) if isinstance(t, ast.Subscript) and norm(t.value).startswith("nebs[") and norm(v) not in (av, "None")]
+    other_pubs = [norm(s)[:60] for t, v, s in stores(fn) if isinstance(t, ast.Subscript) and norm(t.value).startswith(matrix + "[") and norm(v) not in (av, "None")]
     chk.ob("C04.R1", where, "neb-guard-and-report", ok_g and not other_pubs,
            "an NEB assertion enters the matrix only under the strict guard tally_winner > tally_loser, with votes_for_winner / "
            "votes_for_loser assigned from those same tallies", node=pubs[0][2] if pubs else fn, **detail)
     # ---- NEN site
     fb = chk.fn(RU, "find_best_audit")
+    rf = roles_fba(fb)
     where = f"{RU}:find_best_audit"
     ctor = [c for c in ast.walk(fb) if isinstance(c, ast.Call) and norm(c.func) == "NENAssertion"]
     chk.need("C04.R1", len(ctor), 1, "NENAssertion creation site")
@@ -122,7 +162,7 @@ def r1(chk):
         v = ss[0].value
         if isinstance(v, ast.Call) and norm(v.func) in ("sum", "np.sum") and len(v.args) == 1 and isinstance(v.args[0], (ast.ListComp, ast.GeneratorExp)):
             elt, tgt, it, ifs = aud.single_gen(v.args[0])
-            if isinstance(elt, ast.Call) and norm(elt.func) == "vote_for_cand" and not ifs and norm(it) == "ballots" and len(elt.args) == 3 \
+            if isinstance(elt, ast.Call) and norm(elt.func) == "vote_for_cand" and not ifs and norm(it) == rf["ballots"] and len(elt.args) == 3 \
                     and norm(elt.args[2]) == norm(tgt):
                 return norm(elt.args[0]), norm(elt.args[1])
         return None
@@ -145,7 +185,7 @@ def r1(chk):
         ok = tw_ is not None and tl_ is not None and tw_[0] == cargs[1] and tl_[0] == cargs[2] and tw_[1] == cargs[3] == tl_[1] \
             and rep.get("votes_for_winner") == wname and rep.get("votes_for_loser") == lname
         # publication: best_asrtn = nen inside the guard
-        pub = [s for t, v, s in stores(a) if norm(t) == "best_asrtn" and norm(v) == nv]
+        pub = [s for t, v, s in stores(a) if norm(t) == rf.get("best") and norm(v) == nv]
         ok = ok and len(pub) == 1
     chk.ob("C04.R1", where, "nen-guard-and-report", ok,
            "an NEN assertion is created only under the strict guard tally(winner) > tally(loser); both tallies are sums over all ballots "
@@ -172,7 +212,8 @@ def r1(chk):
            "the constructors store contest identifier, winner, loser and eliminated list in the attributes the predicates read",
            node=init, strength="N")
     # ballots of the contest
-    bl = [s for s in fn.body if isinstance(s, ast.Assign) and norm(s.targets[0]) == "ballots"]
+    rr = roles_raire(fn)
+    bl = [s for s in fn.body if isinstance(s, ast.Assign) and norm(s.targets[0]) == rr.get("ballots")]
     ok = False
     if len(bl) == 1 and isinstance(bl[0].value, ast.ListComp):
         elt, tgt, it, ifs = aud.single_gen(bl[0].value)
@@ -222,8 +263,10 @@ def r2(chk):
 def r3(chk):
     fn = chk.fn(RA, "compute_raire_assertions")
     where = f"{RA}:compute_raire_assertions"
+    rr = roles_raire(fn)
+    fr, flag, lb = rr.get("frontier", "frontier"), rr.get("flag", "audit_not_possible"), rr.get("lowerbound", "lowerbound")
     # the harvesting loop dereferences best_assertion unguarded
-    harv = [l for l in fn.body if isinstance(l, ast.For) and norm(l.iter) == "frontier.nodes"]
+    harv = [l for l in fn.body if isinstance(l, ast.For) and norm(l.iter) == f"{fr}.nodes"]
     guarded = False
     if harv:
         nv = norm(harv[0].target)
@@ -235,7 +278,7 @@ def r3(chk):
     if not w:
         raise AnalysisError("compute_raire_assertions: search loop not found")
     w = w[0]
-    init_inserts = [c for c in walk_local(fn) if isinstance(c, ast.Call) and norm(c.func) == "frontier.insert_node" and c.lineno < w.lineno]
+    init_inserts = [c for c in walk_local(fn) if isinstance(c, ast.Call) and norm(c.func) == f"{fr}.insert_node" and c.lineno < w.lineno]
     chk.need("C04.R3", len(init_inserts), 1, "initial frontier insertion")
     ins = init_inserts[0]
     nn = norm(ins.args[0])
@@ -254,10 +297,10 @@ def r3(chk):
             want3 = spec.cond_term(f"{nn}.best_assertion is None")
             if aud.cond_equiv(c, want1)[0] or aud.cond_equiv(c, want3)[0]:
                 for t, v, s in stores(i):
-                    if norm(t) == "audit_not_possible" and norm(v) == "True":
+                    if norm(t) == flag and norm(v) == "True":
                         flag_sets.append(s)
         fba = [c for c in walk_local(loop) if isinstance(c, ast.Call) and norm(c.func) == "find_best_audit" and nn in [norm(a) for a in c.args]]
-        resets = [s for t, v, s in stores(fn) if norm(t) == "audit_not_possible" and norm(v) == "False"]
+        resets = [s for t, v, s in stores(fn) if norm(t) == flag and norm(v) == "False"]
         reset_ok = all(s.lineno < loop.lineno for s in resets) and len(resets) >= 1
         ok = len(flag_sets) == 1 and bool(fba) and flag_sets[0].lineno > fba[0].lineno and reset_ok
         detail.update(flag_set=bool(flag_sets), flag_resets_before_loop=reset_ok)
@@ -271,7 +314,7 @@ def r3(chk):
         if isinstance(s, ast.Assign) and any(isinstance(t, ast.Attribute) and t.attr == "expandable" for t in s.targets) and norm(s.value) == "False":
             node_txt = norm(s.targets[0].value)
             g = _guard_of(s, fn)
-            dom = any(in_body and norm(a.test) in (f"{node_txt}.estimate<=lowerbound", f"lowerbound>={node_txt}.estimate") for a, in_body in g)
+            dom = any(in_body and norm(a.test) in (f"{node_txt}.estimate<={lb}", f"{lb}>={node_txt}.estimate") for a, in_body in g)
             sites.append((s, dom))
     for k, (s, dom) in enumerate(sites):
         chk.ob("C04.R3", where, f"leafified-node-has-finite-estimate@{k}", dom,
@@ -280,13 +323,15 @@ def r3(chk):
     chk.need("C04.R3", len(sites), 2, "sites turning a frontier node into a leaf")
     # find_best_audit: estimate is set only together with an assertion
     fb = chk.fn(RU, "find_best_audit")
-    est = [(t, v, s) for t, v, s in stores(fb) if isinstance(t, ast.Attribute) and t.attr == "estimate" and norm(t.value) == "node"]
+    rf = roles_fba(fb)
+    best, nodep = rf.get("best", "best_asrtn"), rf.get("node", "node")
+    est = [(t, v, s) for t, v, s in stores(fb) if isinstance(t, ast.Attribute) and t.attr == "estimate" and norm(t.value) == nodep]
     ok = len(est) == 1
     if ok:
         g = _guard_of(est[0][2], fb)
-        ok = any(in_body and norm(a.test) in ("best_asrtn!=None", "best_asrtnisnotNone") for a, in_body in g) and norm(est[0][1]) == "best_asrtn.difficulty"
-    ba = [(t, v, s) for t, v, s in stores(fb) if isinstance(t, ast.Attribute) and t.attr == "best_assertion" and norm(t.value) == "node"]
-    ok = ok and len(ba) == 1 and norm(ba[0][1]) == "best_asrtn"
+        ok = any(in_body and norm(a.test) in (f"{best}!=None", f"{best}isnotNone") for a, in_body in g) and norm(est[0][1]) == f"{best}.difficulty"
+    ba = [(t, v, s) for t, v, s in stores(fb) if isinstance(t, ast.Attribute) and t.attr == "best_assertion" and norm(t.value) == nodep]
+    ok = ok and len(ba) == 1 and norm(ba[0][1]) == best
     chk.ob("C04.R3", f"{RU}:find_best_audit", "estimate-finite-iff-assertion", ok,
            "node.estimate is assigned only under `best_asrtn is not None` (from that assertion's difficulty), and node.best_assertion is "
            "that same assertion: finite estimate <=> assertion present", node=fb, strength="N")
@@ -315,9 +360,9 @@ def r4(chk):
     ok = len(empties) == 1
     if ok:
         g = _guard_of(empties[0], fn)
-        ok = any(in_body and norm(a.test) == "audit_not_possible" for a, in_body in g)
+        ok = any(in_body and isinstance(a.test, ast.Name) and a.test.id == roles_raire(fn).get("flag") for a, in_body in g)
     others = [r for r in rets if r not in empties]
-    ok2 = len(others) == 1 and norm(others[0].value) == "final_audit" and parent(others[0]) is fn
+    ok2 = len(others) == 1 and isinstance(others[0].value, ast.Name) and parent(others[0]) is fn
     chk.ob("C04.R4", where, "empty-only-when-impossible", ok and ok2,
            "the empty list is returned only under the audit-not-possible flag; otherwise the assembled list of assertions is returned",
            node=empties[0] if empties else fn, strength="N", returns=[norm(r.value) for r in rets])
